@@ -38,11 +38,16 @@ pub fn gen(ctx: &mut Ctx) {
             } else {
                 let mut g = simple_get(ctx, "example.com");
                 g.allow = Some(vec![ctx.rng.pick(&ids).clone()]);
+                // every successful assertion counts, also one made without a presence test or without verification
+                match ctx.rng.below(6) { 0 => { g.up = false; ctx.stat("c08.assertion_without_presence_test"); } 1 => { g.uv = false; } 2 => { g.up = false; g.uv = false; } _ => {} }
                 if hm == Hm::NoUv && ctx.rng.bool() {
                     g.ext = Some((false, Some(PrfI { eval: Some(PrfV { first: [7u8; 32], second: None }), by_cred: None })));
                 }
+                let silent = !g.up;
                 let mut st = step(Op::Get(g));
-                if ctx.rng.below(8) == 0 { st.uv.answer = Ok((true, false)); }   // denied now and then: no counter step
+                // a validator that reports no presence when none was asked for (half of the silent assertions)
+                if silent && ctx.rng.bool() { st.uv.answer = Ok((false, true)); ctx.stat("c08.assertion_without_reported_presence"); }
+                else if ctx.rng.below(8) == 0 { st.uv.answer = Ok((true, false)); }   // denied now and then: no counter step
                 // the store refuses the write-back now and then (store call 0 = lookup, 1 = update): no success may be reported
                 if ctx.rng.below(8) == 0 { st.faults = vec![None, Some(*ctx.rng.pick(&[0x7Fu8, 0x28, 0x01]))]; ctx.stat("c08.update_fault"); }
                 steps.push(st);
